@@ -12,6 +12,7 @@ import (
 	"sort"
 	"strconv"
 	"strings"
+	"syscall"
 	"testing"
 	"time"
 
@@ -201,6 +202,30 @@ func drawC19(t *rapid.T, dir string, toolQuote map[string][]byte) *c19Case {
 			}
 		} else {
 			m := q.ToProto()
+			// a message can say more than the wire format holds: a 16-bit field of the quote given as the genuine value
+			// plus a multiple of 65536 (the low 16 bits are the signed ones). Such a message is no quote.
+			if rapid.IntRange(0, 5).Draw(t, "fieldWiderThanTheWire") == 0 {
+				add := uint32(rapid.SampledFrom([]int{1, 2, 255, 65535}).Draw(t, "highBits")) << 16
+				qr := m.GetSignedData().GetCertificationData().GetQeReportCertificationData().GetQeReport()
+				which := rapid.SampledFrom([]string{"qe_report.isv_svn", "qe_report.isv_prod_id", "header.qe_svn", "header.pce_svn", "certification_data.certificate_data_type", "qe_auth_data.parsed_data_size", "header.version"}).Draw(t, "wideField")
+				switch which {
+				case "qe_report.isv_svn":
+					qr.IsvSvn += add
+				case "qe_report.isv_prod_id":
+					qr.IsvProdId += add
+				case "header.qe_svn":
+					m.Header.QeSvn = append(append([]byte{}, m.Header.QeSvn...), 1)
+				case "header.pce_svn":
+					m.Header.PceSvn = append(append([]byte{}, m.Header.PceSvn...), 0)
+				case "certification_data.certificate_data_type":
+					m.SignedData.CertificationData.CertificateDataType += add
+				case "qe_auth_data.parsed_data_size":
+					m.SignedData.CertificationData.QeReportCertificationData.QeAuthData.ParsedDataSize += add
+				default:
+					m.Header.Version += add
+				}
+				c.fault(clsVerify, "message field wider than the wire format: "+which)
+			}
 			if inform == "proto" {
 				data, _ = proto.Marshal(m)
 			} else {
@@ -735,7 +760,7 @@ func TestC19(t *testing.T) {
 		gen.HarnessError(t, "VERIF_CHECK_TOOL is not set (the driver builds tools/check from the working tree)")
 	}
 	sh, _ := gen.Shard()
-	base := filepath.Join(gen.VerifDir(), ".build", "c19work", fmt.Sprint(sh))
+	base := filepath.Join(gen.VerifDir(), ".build", "c19work", fmt.Sprintf("%d-%d", sh, os.Getpid())) // (two runs at the same time do not share it)
 	_ = os.RemoveAll(base)
 	defer os.RemoveAll(base)
 	_ = os.MkdirAll(base, 0o755)
@@ -1409,6 +1434,14 @@ func init() {
 		dir, _ := c["dir"].(string)
 		if dir == "" || !strings.Contains(dir, "c19work") {
 			return "replay file has no case directory"
+		}
+		// (the directory is named in the file: two processes replaying the same file at the same time take turns)
+		_ = os.MkdirAll(filepath.Join(gen.VerifDir(), ".build"), 0o755)
+		if lk, err := os.OpenFile(filepath.Join(gen.VerifDir(), ".build", "c19replay.lock"), os.O_CREATE|os.O_RDWR, 0o644); err == nil {
+			if syscall.Flock(int(lk.Fd()), syscall.LOCK_EX) == nil {
+				defer syscall.Flock(int(lk.Fd()), syscall.LOCK_UN)
+			}
+			defer lk.Close()
 		}
 		if err := os.MkdirAll(dir, 0o755); err != nil {
 			return err.Error()
